@@ -114,7 +114,7 @@ def deferred_temporaries(ctx, n):
         action = LocationAction("tp-cap", None, conf, LocationAction.ActionType.Snapshot)
         loc = FunctionLocation("m.py", "f", Location.Position.CAPTURE) if stage == "method_capture" else LineLocation("m.py", 7, Location.Position.CAPTURE)
         world.install([Trigger(loc, [action])])
-        fr = e2.mk_frame("/app/m.py", "f", 7, {"base": float(rng.randrange(3, 50))})
+        fr = e2.mk_frame("/app/m.py", "f", 7, {"base": float(rng.randrange(3, 50)), "extra": ("x", 2, [3, 4]), "tag": "t" * 5})
         world.event(fr, "call" if stage == "method_capture" else "line")
         fr.f_lineno = 9
         base = fr.f_locals["base"]
@@ -138,6 +138,26 @@ def deferred_temporaries(ctx, n):
         if root is None:
             ctx.fail("captured value refers to id %r which is not in the table" % cap[0].result.vid, j, tag="dangling")
             continue
+        # what the snapshot recorded BEFORE the capture still says what it said: every frame variable and every watch result
+        # resolves to the entry of its own object (the capture's entries are merged in, they must not take over existing ids)
+        if s_.frames and conf["frame_type"] == "single_frame":
+            for v in s_.frames[0].variables:
+                ent = s_.var_lookup.get(v.vid)
+                obj = fr.f_locals.get(v.name)
+                if ent is None:
+                    ctx.fail("frame variable %r of the deferred snapshot refers to the missing id %r" % (v.name, v.vid), j, tag="dangling")
+                elif str(ent.hash) != str(id(obj)):
+                    ctx.fail("frame variable %r of the deferred snapshot resolves to the entry of another object (%s %r) after the captured "
+                             "value was merged in" % (v.name, ent.type, ent.value), j, tag="wrong-object")
+        for w in s_.watches:
+            if w.source == "WATCH" and w.result is not None:
+                ent = s_.var_lookup.get(w.result.vid)
+                want_text = str(eval(w.expression, {}, dict(fr.f_locals)))
+                if ent is None:
+                    ctx.fail("watch %r of the deferred snapshot refers to the missing id %r" % (w.expression, w.result.vid), j, tag="dangling")
+                elif ent.value != want_text:
+                    ctx.fail("watch %r of the deferred snapshot resolves to %s %r after the captured value was merged in; it evaluated to %r" % (
+                        w.expression, ent.type, ent.value, want_text), j, tag="wrong-object")
         for child in root.children:
             ent = s_.var_lookup.get(child.vid)
             want = ret[int(child.name)]
